@@ -138,6 +138,12 @@ def install(ex, st):
             sc.cancelled = True if sc.cancelled else sc.cancelled
             run_tasks(e2, sc)
             if any(not t['done'] for t in sc.tasks): return pending()
+            # the scope's completion is itself a suspension point (join of the spawned wait, termination signal): other
+            # acceptors / requesters may run between the end of the wait and the critical section that removes the request
+            s_ = st()
+            if s_['log'] and s_['log'][-1][0] == 'available' and not s_.get('interfered') and e2.choose(2, 'post_scope_interference') == 1:
+                s_['interfered'] = True
+                havoc(e2, s_, 'post'); s_['log'].append(('interference',))
             return ready(r.fields[0])
         return EnvFuture('scope.run', respond)
     ex.model(r'zksync_concurrency::scope::Scope::<.*>::run(::<.*>)?', scope_run)
